@@ -48,9 +48,9 @@ Proof.
   - destruct with_; [discriminate|reflexivity].
   - destruct from; [reflexivity|discriminate].
   - destruct joins; [reflexivity|discriminate].
-  - destruct where_; [reflexivity|discriminate].
+  - destruct where_; [reflexivity|discriminate|discriminate].
   - destruct groups; [reflexivity|discriminate].
-  - destruct having; [reflexivity|discriminate].
+  - destruct having; [reflexivity|discriminate|discriminate].
   - destruct unions; [reflexivity|discriminate].
   - destruct orders; [reflexivity|discriminate].
   - destruct limit; [discriminate|reflexivity].
